@@ -59,7 +59,7 @@ def main():
         rc, out = sh("git -C /repo apply %s" % patch)
         if rc == 0:
             for cid in [prop] + extra:
-                rcc, oc = sh("./check %s --tier quick" % cid, cwd=VERIF, timeout=3600)
+                rcc, oc = sh("timeout -k 5 900 ./check %s --tier quick" % cid, cwd=VERIF, timeout=1000)
                 viol = [l for l in oc.splitlines() if l.startswith("VIOLATION")]
                 first = ""
                 for i, l in enumerate(oc.splitlines()):
